@@ -60,7 +60,10 @@ def gen_cases(rng, tier):
     # usages come and go while the dialog lives: a request is offered to exactly the usages whose guard is alive at that moment
     uk = 0
     for seq in (["U", "D:0", "U", "R"], ["D:0", "U", "R", "D:1", "R"], ["U", "U", "D:1", "U", "R", "D:3", "R", "D:0", "R"], ["D:0", "D:1", "U", "R"], ["U", "D:2", "D:0", "U", "U", "R", "D:1", "R"],
-                ["D:1", "R", "U", "R", "D:2", "R", "U", "R"]):
+                ["D:1", "R", "U", "R", "D:2", "R", "U", "R"],
+                # a window in which nobody is registered: the request that falls into it is still this dialog's (it is answered by the
+                # dialog layer and counts), what follows after the next registration is delivered in order
+                ["D:0", "D:1", "R", "U", "R"], ["D:0", "D:1", "R", "R", "U", "R", "R"], ["D:1", "D:0", "R", "U", "D:2", "R", "U", "R"]):
         evs = []
         c = 100
         evs.append(_recv(0, c, "q0")); c += 1
@@ -72,6 +75,9 @@ def gen_cases(rng, tier):
             else:
                 evs.append("D:0:%s" % e.split(":")[1])
         cases.append(["usg%d" % uk, "c10", "C:2", ",".join(evs)]); uk += 1
+    for j, evs in enumerate(([ "D:0:0", _recv(0, 8, "e0"), "U:0", _recv(0, 9, "e1")], ["D:0:0", _recv(0, 9, "e0"), _recv(0, 8, "e1"), "U:0", _recv(0, 10, "e2")],
+                             ["D:0:0", _recv(0, 8, "e0"), "U:0", _recv(0, 10, "e1"), _recv(0, 9, "e2")])):
+        cases.append(["empty%d" % j, "c10", "S:7:1", ",".join(evs)])
     for j, evs in enumerate(([_recv(0, 100, "k0"), "K:1", _recv(0, 101, "k1")], ["K:10"], [_recv(0, 5, "k0"), "D:0:0", "K:3", "U:0", _recv(0, 6, "k1")])):
         cases.append(["stale%d" % j, "c10", "C:1", ",".join(evs)])
     # exhaustive permutations
@@ -265,12 +271,20 @@ def oracle(case, impl):
                 out.append("request %s (CSeq %d) is ahead of a gap and must be held, got %s" % (rid, cseq, o))
             continue
         want = "V:%d:%s:%s" % (d, "+".join(str(u) for u in sorted(s["usages"])), " ".join("%d/%s" % x for x in exp))
+        if not s["usages"] and ack != "1":
+            want = "Z:" + " ".join("%d/%s" % x for x in exp)      # nobody registered: the dialog layer answers what it releases (404)
         if o != want:
             out.append("dialog %d: expected delivery %s, got %s" % (d, want, o))
     parked = sum(len(s["parked"]) for s in st)
     if obs[-1] != "B=%d/%d" % (len(setup), parked):
         out.append("tables: expected B=%d/%d, got %s" % (len(setup), parked, obs[-1]))
     return out[:1] if out else []
+
+
+def normalize_model(case, s):
+    import re
+    # a delivery to an empty set of usages is observed as the dialog layer's own answers
+    return ";".join(re.sub(r"^V:\d+::", "Z:", o) for o in s.strip().split(";"))
 
 
 def known(case, impl, violation, findings):
